@@ -197,6 +197,27 @@ func oracleC13(op string, a []string) string {
 				return fmt.Sprintf("FAIL NSSAI %x entry %d decoded differently from the 9.11.2.8 layout", b, i)
 			}
 		}
+		// a result belongs to its caller: after this caller has overwritten every object its result points to, another
+		// conversion of the same contents still gives the list above (results must not share objects between calls)
+		for _, g := range got {
+			if g.ServingSnssai != nil {
+				g.ServingSnssai.Sst, g.ServingSnssai.Sd = 77, "zzzzzz"
+			}
+			if g.HomeSnssai != nil {
+				g.HomeSnssai.Sst, g.HomeSnssai.Sd = 78, "yyyyyy"
+			}
+		}
+		again, e2 := nasConvert.RequestedNssaiToModels(&nasType.RequestedNSSAI{Len: uint8(l), Buffer: b})
+		if e2 != nil || len(again) != len(want) {
+			return "FAIL a second conversion of the same contents differs after the first result was modified by its owner"
+		}
+		for i, w := range want {
+			g := again[i]
+			if g.ServingSnssai == nil || uint8(g.ServingSnssai.Sst) != w.sst || g.ServingSnssai.Sd != w.sd ||
+				(w.hasMap && (g.HomeSnssai == nil || uint8(g.HomeSnssai.Sst) != w.msst || g.HomeSnssai.Sd != w.msd)) {
+				return fmt.Sprintf("FAIL NSSAI %x entry %d: the result shares objects with an earlier result (changed when the earlier one was modified)", b, i)
+			}
+		}
 		return "pass"
 	case "rejnssai":
 		l1, ok1 := parseSnssaiList(a[0])
